@@ -155,6 +155,11 @@ def cbStep (st : St) (jalg : Alg) (s : CbSt) (step : String) : CbSt :=
   | ["alg", n] => { s with cfg := { s.cfg with alg := (n.toNat?.bind Alg.ofOrd).getD .inval }, obs := s.obs ++ "a" }
   | ["getalg"] => { s with obs := s.obs ++ s!"jalg={jalg.ord}" }
   | ["ret", n] => { s with ret := n.toInt?.getD 0, obs := s.obs ++ "r" }
+  -- the callback's context: it is handed the one the object was configured with (`ctxis1`; `ctxis0` = configured NULL),
+  -- every time; what it writes into the per-call `config->ctx` is not kept (`setctx`)
+  | ["ctxis1"] => { s with obs := s.obs ++ "ctx=1" }
+  | ["ctxis0"] => { s with obs := s.obs ++ "ctx=0" }
+  | ["setctx"] => { s with obs := s.obs ++ "x" }
   | _ => { s with obs := s.obs ++ "?" }
 
 def runProg (st : St) (prog : String) (headers claims : Json) (jalg : Alg) (cfg : Config) : CbSt :=
@@ -354,7 +359,9 @@ def step (st : St) (line : String) : St × String :=
               -- NULL callback, non-NULL context: the installed callback (kept as text in the slot) stays
               let ck' : Checker := if slot.prog = "" then slot.ck else (slot.ck.setcb (some (progCb st slot.prog))).1
               let (ck2, rc) := ck'.setcbCtx
-              ({ st with cks := st.cks.insert ci { slot with ck := { slot.ck with error := ck2.error, msg := ck2.msg } } }, s!"rc={rc}")
+              -- an installed callback now has a context (the harness hands in the object's own)
+              ({ st with cks := st.cks.insert ci { slot with ck := { slot.ck with error := ck2.error, msg := ck2.msg },
+                                                              prog := slot.prog.replace "ctxis0" "ctxis1" } }, s!"rc={rc}")
             else if prog = "-" then
               ({ st with cks := st.cks.insert ci { ck := (slot.ck.setcb none).1, prog := "" } }, "rc=0")
             else
@@ -452,7 +459,7 @@ def step (st : St) (line : String) : St × String :=
               if slot.prog = "" then
                 let (b2, rc) := slot.bl.setcbCtx
                 ({ st with bls := st.bls.insert bi { slot with bl := b2 } }, s!"rc={rc}")
-              else (st, "rc=0")
+              else ({ st with bls := st.bls.insert bi { slot with prog := slot.prog.replace "ctxis0" "ctxis1" } }, "rc=0")
             else if prog = "-" then ({ st with bls := st.bls.insert bi { bl := (slot.bl.setcb none).1, prog := "" } }, "rc=0")
             else ({ st with bls := st.bls.insert bi { bl := slot.bl, prog := prog } }, "rc=0")
           | [op, ty, nm, v, rp] =>
